@@ -55,19 +55,22 @@ def as_identifier(ident, reader=None):
     -------
     out : a hy.models.Object subtype corresponding to the parsed text.
     """
-    try:
-        return Integer(ident)
-    except ValueError:
-        pass
-    try:
-        return Float(ident)
-    except ValueError:
-        pass
-    if ident not in ("j", "J"):
+    # Numeric literals are ASCII-only, as in Python. (The constructors
+    # below would also accept other Unicode digits and whitespace.)
+    if ident.isascii():
         try:
-            return Complex(ident)
+            return Integer(ident)
         except ValueError:
             pass
+        try:
+            return Float(ident)
+        except ValueError:
+            pass
+        if ident not in ("j", "J"):
+            try:
+                return Complex(ident)
+            except ValueError:
+                pass
 
     if "." in ident:
         if not ident.strip("."):
